@@ -10,5 +10,6 @@ CONSTANTS
   TrustScanOrder = FALSE
   SwapBeforeApply = TRUE
   BatchOnSharedCopy = FALSE
+  BuildTrustsStorage = FALSE
 INVARIANT RejectedIsNoOp
 CHECK_DEADLOCK FALSE
